@@ -50,6 +50,33 @@ def codec_oracle(docs):
                 os.unlink(path)
             if out:
                 return out[:2]
+    # a file with CRLF line endings: every file-based route reads it with universal newlines, i.e. as the LF text
+    from pathlib import Path
+    crlf_docs = [t for t, _ in docs if "'''" in t][:6] + ["Table t {\n  id int\n  Note: '''\n    First line\n    Second line\n  '''\n}\nNote n {\n  '''\n  a\n\n  b\n  '''\n}\n"]
+    for text in crlf_docs:
+        fd, path = tempfile.mkstemp(suffix='.dbml', dir='/var/tmp')
+        try:
+            with os.fdopen(fd, 'wb') as fh:
+                fh.write(text.replace('\n', '\r\n').encode('utf8'))
+            base = snap(lambda: PyDBML(text))
+            routes = [('PyDBML(Path) on a CRLF file', lambda: PyDBML(Path(path))), ('parse_file(Path) on a CRLF file', lambda: PyDBML.parse_file(Path(path))),
+                      ('parse_file(path string) on a CRLF file', lambda: PyDBML.parse_file(path))]
+            for name, f in routes:
+                got = snap(f)
+                if got != base:
+                    out.append({'cause': 'oracle', 'clause': 'PyDBML(str of the LF text) and %s give different results' % name,
+                                'detail': '%s vs %s' % (str(base)[:200], str(got)[:200]),
+                                'input': {'kind': 'document', 'text_hex': hexs(text), 'text': text, 'line_endings': 'CRLF'}})
+                    break
+            with open(path, encoding='utf8') as fh:
+                got = snap(lambda: PyDBML(fh))
+            if got != base and not out:
+                out.append({'cause': 'oracle', 'clause': 'PyDBML(str of the LF text) and PyDBML(open file) on a CRLF file give different results',
+                            'input': {'kind': 'document', 'text_hex': hexs(text), 'text': text, 'line_endings': 'CRLF'}})
+        finally:
+            os.unlink(path)
+        if out:
+            return out[:2]
     return out
 
 
